@@ -13,8 +13,8 @@ import (
 // only need templates that parse, generate and gofmt.
 func GenProgram(r *rand.Rand) string {
 	g := &pgen{r: r}
-	g.ml = 1 + r.Intn(4)  // 1 in ml expressions is laid out on several lines
-	g.mb = 1 + r.Intn(3)  // 1 in mb names/strings carries multi-byte runes
+	g.ml = 1 + r.Intn(4) // 1 in ml expressions is laid out on several lines
+	g.mb = 1 + r.Intn(3) // 1 in mb names/strings carries multi-byte runes
 	g.spaces = r.Intn(4) == 0
 	var sb strings.Builder
 	// Go before the package clause.
